@@ -120,14 +120,18 @@ def harness_for(item):
                     a0 = zexpr(SV(args[0]))
                     hit = [g for g in pool if g[0] == fname and g[1][0].eq(a0)]
                     if not hit:
+                        env.replay_as = f"{label}[r{r}]:" + ("rate" if fname == "poisson_logpdf" else "mean")
                         env.fail(f"{label}[r{r}]:present", f"no {fname} term on datum {a0}", key="logpdf:missing-term")
+                        env.replay_as = None
                         continue
                     pool.remove(hit[0])
                     names = ("rate",) if fname == "poisson_logpdf" else ("mean", "sigma")
                     for nm, ga, wa in zip(names, hit[0][1][1:], args[1:]):
                         env.eq(f"{label}[r{r}]:{nm}", SV(ga), wa, key=f"logpdf:{label.split('[')[0]}:{nm}", validate=False)
                 if pool:
+                    env.replay_as = f"main[0][r{r}]:rate"
                     env.fail(f"logpdf[r{r}]:extra-terms", f"{len(pool)} unexpected log terms, e.g. {pool[0][0]}({pool[0][1][0]},...)", key="logpdf:extra-term")
+                    env.replay_as = None
             else:
                 tot = env.num(0)
                 for label, fname, args in want:
